@@ -159,7 +159,7 @@ func Applicable(kind NodeKind, isProp bool, rules []RuleAtom) (accept, judged bo
 		switch o.Variant {
 		case "exclusive-empty-set":
 			return false, true, "min == max with an exclusive flag inside an or rule set"
-		case "foreign-kind-set", "foreign-rule-same-kind-set":
+		case "foreign-kind-set", "foreign-rule-same-kind-set", "foreign-rule-same-kind-admitted-set":
 			return false, true, "a rule that does not apply to the kind an or rule set declares"
 		case "huge-length-set":
 			return false, true, "minLength above maxLength inside an or rule set (a bound of 2^64)"
